@@ -440,6 +440,11 @@ def c_array(view, bs):
             is_conv = c.fn is not None and (c.name == "try_into" or (c.name == "try_from" and c.self_ty is not None and view.b.crate.types[c.self_ty]["k"] == "array"))
             if is_conv:
                 src = strip_refs(t[1][3][0]) if t[1][3] else None
+                if src and not (src[0] == "call" and src[1] in [v[0] for v in colls.values()]) and not (src[0] == "multi" and src[1] in colls):
+                    # the vector comes back from the helper that filled it (`fill(seq, location, vec, Vec::push)?`)
+                    al = set(strip_refs(canon(view, a)) for a in view.alts(src))
+                    if len(al) == 1 and all((a[0] == "call" and a[1] in [v[0] for v in colls.values()]) or (a[0] == "multi" and a[1] in colls) for a in al):
+                        src = list(al)[0]
                 if src and src[0] == "call" and src[1] in [v[0] for v in colls.values()]:
                     coll = [l for l, v in colls.items() if v[0] == src[1]][0]
                     fs, o2, adds = seq_rules(view, bs, coll)
@@ -827,6 +832,11 @@ def _flows_into_variant(view, coll, variant):
         for st in view.blocks[bb]["stmts"]:
             if st["k"] == "assign" and st["rv"]["k"] == "agg" and st["rv"].get("variant") == variant and st["rv"].get("path") == "serde_json::Value":
                 t = view.origin(st["rv"]["ops"][0])
-                if t == ("multi", coll) or (t[0] == "call" and t[1] == view.whole_defs(coll)[0][1]):
+                made = view.whole_defs(coll)[0][1]
+                if t == ("multi", coll) or (t[0] == "call" and t[1] == made):
+                    return True
+                # through the result of a helper (`rebuild(..).map(Value::Array)`): every alternative is the collection
+                al = [strip_refs(a) for a in view.alts(t)]
+                if al and all(a == ("multi", coll) or (a[0] == "call" and a[1] == made) for a in al):
                     return True
     return False
